@@ -487,22 +487,44 @@ def g_flagctx(tier):
 
 def g_params(tier):
     """functions with several parameters of mixed width and signedness; the body is sensitive to the type of ONE of them"""
-    T = ['u8', 's8', 'u16', 's16']
+    T = ['u8', 's8', 'u16', 's16', 'pc8', 'pi16', 'ps16']
+    SIGNED = ('s8', 's16', 'pi16', 'ps16')
     uses = [('lt', lambda p, t: Return(Tern(B('<', V(p), C(100)), C(1), C(2)))), ('gt', lambda p, t: Return(Tern(B('>', V(p), C(5)), C(1), C(2)))), ('widen', lambda p, t: Block([A(V('ha'), V(p)), Return(B('>>', V('ha'), C(8)))])),
             ('shr', lambda p, t: Return(B('>>', V(p), C(1)))), ('cmpvar', lambda p, t: Return(Tern(B('<', V(p), V('q0' if p != 'q0' else 'q1')), C(1), C(2)))), ('neg', lambda p, t: Block([A(V('ha'), Un('-', V(p))), Return(B('>>', V('ha'), C(8)))])),
             ('sum', lambda p, t: Block([A(V('wa'), B('+', V(p), V('wb'))), Return(B('>>', V('wa'), C(8)))]))]
-    argsrc = {'u8': ['va', 'vb', 'vc'], 's8': ['sa', 'sb', 'sc'], 'u16': ['wa', 'wb', 'wc'], 's16': ['ha', 'hb', 'hc']}
-    for t0, t1, t2 in itertools.product(T, T, T[:2]):
+    argsrc = {'u8': ['va', 'vb', 'vc'], 's8': ['sa', 'sb', 'sc'], 'u16': ['wa', 'wb', 'wc'], 's16': ['ha', 'hb', 'hc'], 'pc8': ['va', 'vb', 'vc'], 'pi16': ['ha', 'hb', 'hc'], 'ps16': ['ha', 'hb', 'hc']}
+    for t0, t1, t2 in itertools.product(T, T, ('u8', 's8', 'pc8', 'pi16')):
         for which, (un, use) in itertools.product((0, 1, 2), uses):
             pid = 'deep/params/%s-%s-%s/q%d/%s' % (t0, t1, t2, which, un)
-            if not keep(pid, tier, 12): continue
+            if not keep(pid, tier, 8): continue
             ts = [t0, t1, t2]
             if un == 'cmpvar' and ts[which] != ts[0 if which else 1]: continue      # mixed-type comparisons: known-broken area
-            if un in ('lt', 'gt', 'cmpvar') and ts[which] in ('s8', 's16'): continue   # signed comparisons: known-broken area (K08)
+            if un in ('lt', 'gt', 'cmpvar') and ts[which] in SIGNED: continue   # signed comparisons: known-broken area (K08)
             body = use('q%d' % which, ts[which])
             f = Func('f', 'u8', [(t, 'q%d' % k) for k, t in enumerate(ts)], body if isinstance(body, Block) else Block([body]))
             args = [V(argsrc[t][k]) for k, t in enumerate(ts)]
             yield mkprog(pid, [A(V('vd'), Call('f', args))], funcs=[f], extra_globals=['ha', 'wa', 'wb'])
+
+
+def g_plain(tier):
+    """variables declared with the plain spellings `char`, `int`, `short` (default signedness) in global, local and parameter position"""
+    yield mkprog('deep/plain/widen-char', [A(V('wa'), V('pa')), A(V('ha'), V('pb'))])
+    yield mkprog('deep/plain/widen-sum', [A(V('wa'), B('+', V('pa'), V('wb')))])
+    yield mkprog('deep/plain/cmp-char', [If(B('>', V('pa'), C(200)), A(V('vc'), C(1)), A(V('vc'), C(2)))])
+    yield mkprog('deep/plain/cmp-chars', [If(B('<', V('pa'), V('pb')), A(V('vc'), C(1)), A(V('vc'), C(2)))])
+    yield mkprog('deep/plain/shr-char', [A(V('va'), B('>>', V('pa'), C(1)))])
+    yield mkprog('deep/plain/neg-char', [A(V('ha'), Un('-', V('pa')))])
+    yield mkprog('deep/plain/int-copy', [A(V('ha'), V('pw')), A(V('px'), V('ha')), A(V('wa'), V('px'))])
+    yield mkprog('deep/plain/int-from-signed-char', [A(V('pw'), V('sa')), A(V('px'), V('pa'))])
+    yield mkprog('deep/plain/int-add', [A(V('pw'), B('+', V('px'), C(300)))])
+    for lt in ('pc8', 'pi16', 'ps16'):
+        fi = Func('fi', None, [], Block([A(V('ha'), V('l'))], decls=[(lt, 'l', V('sa'))]))
+        yield mkprog('deep/plain/local-from-signed/%s' % lt, [ExprS(Call('fi', []))], funcs=[fi], extra_globals=['ha', 'sa'])
+        fi = Func('fi', None, [], Block([A(V('wa'), V('l'))], decls=[(lt, 'l', V('va'))]))
+        yield mkprog('deep/plain/local-from-unsigned/%s' % lt, [ExprS(Call('fi', []))], funcs=[fi], extra_globals=['wa', 'va'])
+        if lt == 'pc8': continue          # (an 8-bit result assigned to a 16-bit destination: known K14)
+        f = Func('f', lt, [(lt, 'p')], Block([Return(V('p'))]))
+        yield mkprog('deep/plain/ret/%s' % lt, [A(V('ha'), Call('f', [V('sa')])), A(V('wa'), Call('f', [V('va')]))], funcs=[f])
 
 
 def g_self(tier):
@@ -525,6 +547,7 @@ def g_self(tier):
 def g_deep(tier):
     yield from g_flagctx(tier)
     yield from g_params(tier)
+    yield from g_plain(tier)
     yield from g_self(tier)
     yield from g_xfn(tier)
     yield from g_init(tier)
